@@ -308,6 +308,48 @@ func dstRun(args []string) int {
 					}
 				}
 			}
+			// expressions aimed at a spring-forward gap itself (second mutation round)
+			if _, offBefore := time.Unix(tr[0]-1, 0).In(z.loc).Zone(); tr[1] > int64(offBefore) {
+				gap := tr[1] - int64(offBefore)
+				add := func(expr string, sp tsp, prev int64, place string, oracle bool) {
+					want := int64(-2)
+					if oracle {
+						want = firstMatch(z.loc, &sp, prev)
+					}
+					ncases = append(ncases, ncase{len(ops), z, expr, sp, prev, place, want})
+					ops = append(ops, fmt.Sprintf("cron nextz %s %s %d", encRunes(expr), z.name, prev*1e9))
+					impl = append(impl, "")
+					reqs = append(reqs, fmt.Sprintf("N %s %s %d", hexArg(expr), z.name, prev*1e9))
+					dist["place"][place]++
+					dist["kind"]["nextz"]++
+				}
+				// (a) a reading INSIDE the gap, selected by its calendar day / its weekday (a gap of 24 h removes a whole day)
+				w := time.Unix(tr[0]+int64(offBefore)+int64(r.Intn(int(gap))), 0).UTC() // the missing reading, as a UTC-labelled civil time
+				before := tr[0] - 1 - int64(r.Intn(36*3600))
+				add(fmt.Sprintf("%d %d %d %d %d ?", w.Second(), w.Minute(), w.Hour(), w.Day(), int(w.Month())), tsp{}, before, "gap-pinned-date", false)
+				wd := int(w.Weekday())
+				add(fmt.Sprintf("%d %d %d ? * %d", w.Second(), w.Minute(), w.Hour(), wd+1),
+					tsp{sec: []int{w.Second()}, min: []int{w.Minute()}, hour: []int{w.Hour()}, dow: []int{wd}}, before, "gap-pinned-weekday", true)
+				// the weekday of the transition day at noon (the calendar helpers must not depend on whether local midnight exists)
+				add(fmt.Sprintf("0 30 12 ? * %d", wd+1), tsp{sec: []int{0}, min: []int{30}, hour: []int{12}, dow: []int{wd}}, before, "gap-day-weekday-noon", true)
+				// (b) several matches per hour across a gap that need not end on the hour
+				m := []int{5, 10, 15, 20}[r.Intn(4)]
+				var mins []int
+				for i := 0; i < 60; i += m {
+					mins = append(mins, i)
+				}
+				pv := tr[0] - 1 - int64(r.Intn(3600))
+				spb := tsp{sec: []int{0}, min: mins}
+				for c := 0; c < 4 && pv > 0; c++ {
+					add(fmt.Sprintf("0 */%d * * * ?", m), spb, pv, "gap-every-few-minutes", true)
+					pv = firstMatch(z.loc, &spb, pv)
+				}
+				// (c) the last second of the gap and the first second after it both match
+				spc := tsp{sec: []int{0, 59}}
+				add("0,59 * * * * ?", spc, tr[0]-1-int64(r.Intn(3)), "gap-edge-seconds", true)
+				spd := tsp{sec: []int{0, 59}, min: []int{0, 59}}
+				add("59,0 59,0 * * * ?", spd, tr[0]-1-int64(r.Intn(3)), "gap-edge-seconds", true)
+			}
 			for c := 0; c < *chain; c++ {
 				// oracle: least instant > prev whose reading matches, within 9 days
 				want := firstMatch(z.loc, &sp, prev)
